@@ -147,14 +147,16 @@ fn render(m: &Message, magic: [u8; 4]) -> String {
 /// The receive loop of `Peer::connect_internal` (src/peer/peer.rs lines 281-335), reader logic
 /// only: the `connected` flag test (295-297), `handle_message` (307-311) and the publication to
 /// the `messages` subject (313-316) are replaced by pushing to `out`.
-fn recv_loop(inner: &mut dyn Read, magic: [u8; 4]) -> (Vec<Message>, String) {
+fn recv_loop(inner: &mut dyn Read, magic: [u8; 4], max_passes: u64) -> (Vec<Message>, String) {
     let mut out = Vec::new();
     let mut partial: Option<MessageHeader> = None;                       // 281
     let mut tcp_reader = AtomicReader::new(inner);                       // 285
     let mut passes: u64 = 0;
     loop {                                                               // 287
         passes += 1;
-        if passes > 50_000_000 { return (out, "hang".into()); }
+        // the model proves termination within sched + stream + #messages + 1 passes (C11_terminates);
+        // a run that needs many times more is reported as a hang instead of spinning
+        if passes > max_passes { return (out, "hang".into()); }
         let message = match &partial {                                   // 288-291
             Some(header) => Message::read_partial(&mut tcp_reader, header),
             None => Message::read(&mut tcp_reader, magic),
@@ -196,7 +198,7 @@ pub fn exec(op: &str, a: &[&str]) -> Option<String> {
             let sched = parse_sched(a[2]);
             let kinds = a[3].as_bytes()[0];
             let mut rd = Scripted { data: &stream, pos: 0, sched: &sched, k: 0, kinds, zeros: 0 };
-            let (msgs, fin) = recv_loop(&mut rd, magic);
+            let (msgs, fin) = recv_loop(&mut rd, magic, 10 * (stream.len() as u64 + sched.len() as u64) + 1000);
             Some(outcome(&msgs, &fin, magic))
         }
         "c11.reads" => {
@@ -320,7 +322,8 @@ impl<'a> Read for FragRecorder<'a> {
 }
 fn schedule_for_cuts(stream: &[u8], cuts: &[(usize, u8)], magic: [u8; 4]) -> Vec<u64> {
     let mut f = FragRecorder { data: stream, pos: 0, cuts: cuts.to_vec(), rec: Vec::new() };
-    let _ = recv_loop(&mut f, magic);
+    let budget = 4 * stream.len() as u64 + 16 * cuts.len() as u64 + 64;
+    let _ = recv_loop(&mut f, magic, budget);
     f.rec
 }
 
